@@ -38,6 +38,15 @@ LEVEL_NOTE = ("Trusted: the generic census/restore (asserted equal to pristine a
               "subprocess baselines. Bounds: pool of 15 documents, events {new, enc}, depth as in evidence.")
 
 EVENTS = [(e, n) for n in HP.POOL_NAMES for e in ("new", "enc")]
+EVENTS2 = [(e, n) for n in HP.POOL2_NAMES for e in ("new", "enc")]  # second sharing group: histories stay within one group
+
+
+def events_for(hist):
+    """The alphabet that extends `hist`: the group of its first event (both groups for the empty history)."""
+    if not hist:
+        return EVENTS + EVENTS2
+    return EVENTS2 if hist[0][1] in HP.POOL2_NAMES else EVENTS
+
 _SNAP = None
 _BASE = None
 _PRISTINE = None
@@ -52,7 +61,7 @@ def _init():
         C.import_all()
         _SNAP = C.Snapshot()
         _PRISTINE = {}
-        for name in HP.POOL_NAMES:
+        for name in HP.ALL_NAMES:
             _SNAP.restore()
             sh = HP.mk_shared()
             try:
@@ -109,7 +118,7 @@ def run_history(hist):
         after = df_fps(docs, sh)
         obs.append({"ev": ev, "doc": name, "res": r, "df_changed": sorted(k for k in before if k in after and before[k] != after[k])})
     slots = []
-    for name in HP.POOL_NAMES:
+    for name in HP.ALL_NAMES:
         if name not in docs:
             slots.append(None)
             continue
@@ -190,7 +199,7 @@ def eval_case(case: dict) -> dict:
                 check_obs(h, obs, viol, only_last=True)
             if d <= 0:
                 return
-            for e in EVENTS:
+            for e in events_for(h):
                 if d == 1 and len(h) >= 2 and e[0] == "new":
                     continue  # a trailing construct makes no observation beyond what depth 2 already checks
                 rec(h + [e], d - 1)
@@ -200,7 +209,7 @@ def eval_case(case: dict) -> dict:
     elif mode == "expand":
         h = [tuple(e) for e in case["hist"]]
         succ = []
-        for e in EVENTS:
+        for e in events_for(h):
             h2 = h + [e]
             s2, obs = run_history(h2)
             n += 1
@@ -263,27 +272,28 @@ def plan(run):
     seeds = [0, 1, (run.seed % 1000) + 2]
     with ThreadPoolExecutor(run.workers) as ex:
         # one genuinely fresh interpreter per (document, hash seed): no document shares a process with another
-        futs = [(s, name, ex.submit(fresh_results, [name], s)) for s in seeds for name in HP.POOL_NAMES]
+        futs = [(s, name, ex.submit(fresh_results, [name], s)) for s in seeds for name in HP.ALL_NAMES]
         per_seed = {}
         for s, name, f in futs:
             per_seed.setdefault(s, {}).update(f.result())
     base = per_seed[seeds[0]]
     for s in seeds[1:]:
-        for name in HP.POOL_NAMES:
+        for name in HP.ALL_NAMES:
             if per_seed[s][name] != base[name]:
                 run.add_violation(None, f"fresh interpreters disagree for document '{name}' under PYTHONHASHSEED {seeds[0]} vs {s}",
                                   {"mode": "replay", "hist": [["enc", name]]}, sig="hash-seed-dependent-output")
     with open(BASEFILE, "w") as f:
         json.dump(base, f)
-    run.extra["baseline"] = {n: (base[n][0], (len(base[n][1]) if base[n][0] == "ok" else base[n][1])) for n in HP.POOL_NAMES}
+    run.extra["baseline"] = {n: (base[n][0], (len(base[n][1]) if base[n][0] == "ok" else base[n][1])) for n in HP.ALL_NAMES}
 
     # 1. unmerged: all histories up to depth k
     k = 3 if quick else 4
     cases = []
-    for e1 in EVENTS:
-        for e2 in EVENTS:
-            cases.append({"mode": "unmerged", "prefix": [list(e1), list(e2)], "depth": k - 2})
-        cases.append({"mode": "unmerged", "prefix": [list(e1)], "depth": 0})
+    for evs, kk in ((EVENTS, k), (EVENTS2, k)):
+        for e1 in evs:
+            for e2 in evs:
+                cases.append({"mode": "unmerged", "prefix": [list(e1), list(e2)], "depth": kk - 2})
+            cases.append({"mode": "unmerged", "prefix": [list(e1)], "depth": 0})
     run.layer(f"unmerged-depth<={k}", "mc.props.c14:eval_case", cases, chunk=2, total=len(cases))
 
     # 2. merged BFS over canonical states
